@@ -85,6 +85,15 @@ FRESHV = Val()
 IMMV = Val(imm=True)
 
 
+def origin_val(o):
+    """initial value of a parameter / module global: the object is `o`, everything inside it is `IN:o`"""
+    return Val([o], ["IN:" + o], ["IN:" + o])
+
+
+def base_origin(o):
+    return o[3:] if o.startswith("IN:") else o
+
+
 def nonfresh(origins):
     return sorted(o for o in origins if o != FRESH)
 
@@ -162,7 +171,7 @@ class Eff:
                 if self.summ[q].key() != old:
                     changed = True
             if not changed:
-                self.written_globals = {o for s_ in self.summ.values() for o in s_.mutates if o.startswith("GLOBAL:")}
+                self.written_globals = {base_origin(o) for s_ in self.summ.values() for o in s_.mutates if base_origin(o).startswith("GLOBAL:")}
                 return
         raise Inconclusive("EFF summaries did not reach a fixpoint")
 
@@ -196,11 +205,10 @@ class _Run:
         env = {}
         a = self.f.node.args
         for x in a.posonlyargs + a.args + a.kwonlyargs:
-            o = "PARAM:" + x.arg
-            env[x.arg] = Val([o], [o])
+            env[x.arg] = origin_val("PARAM:" + x.arg)
         for x in (a.vararg, a.kwarg):
             if x:
-                o = "PARAM:" + x.arg
+                o = "IN:PARAM:" + x.arg
                 env[x.arg] = Val([FRESH], [o], [o])
         end = self.block(self.f.node.body, env)
         if end is not None:
@@ -323,7 +331,7 @@ class _Run:
                 # nested function: analyse its body in the enclosing environment (closures see the outer names)
                 inner = dict(env)
                 for x in s.args.args:
-                    inner[x.arg] = Val(["PARAM:" + x.arg], ["PARAM:" + x.arg])
+                    inner[x.arg] = origin_val("PARAM:" + x.arg)
                 saved = self.ret
                 self.block(s.body, inner)
                 self.ret = saved
@@ -393,12 +401,12 @@ class _Run:
             if e.id in self.globals_here:
                 o = "GLOBAL:%s.%s" % (self.f.mod, e.id)
                 self.reads_globals.add(o)
-                return Val([o], [o])
+                return origin_val(o)
             imp = self.ix.imports.get(self.f.mod, {}).get(e.id)
             if imp and imp[2] >= 1 and imp[0] in self.eff.mutable_globals and imp[1] in self.eff.mutable_globals[imp[0]]:
                 o = "GLOBAL:%s.%s" % (imp[0], imp[1])
                 self.reads_globals.add(o)
-                return Val([o], [o])
+                return origin_val(o)
             q = self.ix.resolve_name(self.f.mod, e.id)
             if q:
                 return Val(imm=True, callee=q)
@@ -501,6 +509,7 @@ class _Run:
         raise Inconclusive("EFF: expression kind %s in %s" % (type(e).__name__, self.f.qual))
 
     def call(self, e, env):
+        self._npos = len(e.args)
         args = [self.expr(a.value if isinstance(a, ast.Starred) else a, env) for a in e.args]
         kws = [self.expr(k.value, env) for k in e.keywords]
         allargs = args + kws
@@ -530,9 +539,12 @@ class _Run:
                 stored = None
                 for a in allargs:
                     stored = a if stored is None else stored.join(a)
+                if stored is not None and f.attr in ("extend", "update", "extendleft", "difference_update", "intersection_update", "symmetric_difference_update",
+                                                     "add_nodes_from", "add_edges_from"):
+                    stored = elem(stored)       # the elements of the argument are stored, not the argument itself
                 self.mutate(recv, e, "call of mutating method .%s()" % f.attr, stored=stored)
                 if stored is not None:
-                    new = self.taint_root(f.value, stored if f.attr not in ("extend", "update") else elem(stored), env, extra_depth=1)
+                    new = self.taint_root(f.value, stored, env, extra_depth=1)
                     env.clear()
                     env.update(new)
                 if f.attr in ("pop", "setdefault", "popitem", "popleft"):
@@ -605,7 +617,7 @@ class _Run:
         if short in ("insert", "append", "delete", "concatenate", "array", "asarray", "zeros", "ones", "empty", "copy", "deepcopy"):
             if short == "asarray" and args:
                 return Val(args[0].self_o, args[0].elem_o, args[0].cont_o)
-            return container([], args)
+            return container([], args[:self._npos] if getattr(self, "_npos", None) is not None else args)
         if short in ("fill_diagonal", "put", "place", "copyto", "shuffle", "putmask", "put_along_axis") and args:
             self.mutate(args[0], node, "call of in-place library function %s()" % name)
             return IMMV
@@ -630,11 +642,14 @@ class _Run:
                 elif fn.node.args.kwarg is not None:
                     bind["PARAM:" + fn.node.args.kwarg.arg] = Val([FRESH], v.elem_o, v.cont_o)
         for o, why in s.mutates.items():
-            if o.startswith("PARAM:"):
-                if o in bind:
-                    self.mutate(bind[o], node, "call of %s, which mutates its parameter %s (%s)" % (q, o[6:], why), via=q)
-            elif o.startswith("GLOBAL:"):
-                self.mutate(Val([o], [o]), node, "call of %s, which mutates %s (%s)" % (q, o[7:], why), via=q)
+            b = base_origin(o)
+            inner = o.startswith("IN:")
+            if b.startswith("PARAM:"):
+                if b in bind:
+                    tgt = Val(bind[b].below) if inner else bind[b]
+                    self.mutate(tgt, node, "call of %s, which mutates %sits parameter %s (%s)" % (q, "something inside " if inner else "", b[6:], why), via=q)
+            elif b.startswith("GLOBAL:"):
+                self.mutate(Val([o]), node, "call of %s, which mutates %s%s (%s)" % (q, "something inside " if inner else "", b[7:], why), via=q)
         for g in s.reads_globals:
             self.reads_globals.add(g)
         if s.ret is None:
@@ -643,16 +658,16 @@ class _Run:
         def sub(origins, layer):
             out = set()
             for o in origins:
-                if o.startswith("PARAM:"):
-                    if o in bind:
-                        b = bind[o]
-                        out |= {0: b.self_o, 1: b.elem_o, 2: b.cont_o}[layer] if layer == 0 else (b.reach if layer == 2 else b.self_o | b.elem_o)
-                    else:
+                b = base_origin(o)
+                if b.startswith("PARAM:"):
+                    if b not in bind:
                         out.add(FRESH)
+                    elif o.startswith("IN:"):
+                        out |= bind[b].below
+                    else:
+                        out |= bind[b].self_o
                 else:
                     out.add(o)
             return out
 
-        # a PARAM origin in layer k of the summary stands for "something reachable from that argument": be conservative below the top layer
-        return Val(sub(s.ret.self_o, 0) or [FRESH], sub(s.ret.elem_o, 1) | (sub(s.ret.elem_o, 2) if False else set()) or [FRESH],
-                   sub(s.ret.cont_o, 2) | sub(s.ret.elem_o, 2) or [FRESH], s.ret.imm)
+        return Val(sub(s.ret.self_o, 0) or [FRESH], sub(s.ret.elem_o, 1) or [FRESH], sub(s.ret.cont_o, 2) or [FRESH], s.ret.imm)
